@@ -7,6 +7,7 @@ import (
 	"encoding/binary"
 	"encoding/json"
 	"fmt"
+	"sort"
 	"strings"
 	"sync"
 	"testing"
@@ -44,11 +45,13 @@ type AppCfg struct {
 	NReq    int  `json:"http_requests"`
 	NMsg    int  `json:"ws_messages"`
 	RawWS   bool `json:"raw_masked_ws_client"`
-	Burst   bool `json:"bursts"` // several messages in one direction before the other side answers
+	Burst   bool `json:"bursts"`                                        // several messages in one direction before the other side answers
+	Async   bool `json:"server_sends_from_another_goroutine,omitempty"` // the server's replies are sent by a second goroutine while its handler is back in ReadData
 }
 
 func (scApp) GenCfg(rng *sim.Rand, tier, prop, variant string) json.RawMessage {
 	c := AppCfg{Hairpin: rng.Chance(0.5), MTU: []int{576, 1500}[rng.Intn(2)], NReq: rng.Range(1, 6), NMsg: rng.Range(1, 8), RawWS: rng.Chance(0.5), Burst: rng.Chance(0.5)}
+	c.Async = rng.Chance(0.3)
 	b, _ := json.Marshal(c)
 	return b
 }
@@ -70,6 +73,7 @@ type appWorld struct {
 	wsReply func(msg []byte) [][]byte
 	done    bool
 	seed    uint64
+	names   map[string]bool // every header name some request of this session carried
 }
 
 var (
@@ -117,6 +121,19 @@ func (w *appWorld) onRequest(path string, r *http.Request, resp *http.Response) 
 			w.Fail("header-altered", "", "client sent header %q: %q, the handler saw %q", k, v, got)
 		}
 	}
+	// ... and no header of an earlier request of the session that this one did not carry
+	var earlier []string
+	for k := range w.names {
+		if _, sent := q.headers[k]; !sent {
+			earlier = append(earlier, k)
+		}
+	}
+	sort.Strings(earlier)
+	for _, k := range earlier {
+		if got := r.GetHeader(k); got != "" {
+			w.Fail("header-invented", "", "the handler saw header %q: %q which this request did not carry (an earlier request of the session did)", k, got)
+		}
+	}
 	if got := r.GetBody(); got != q.body {
 		w.Fail("body-altered", "request", "client sent a %d-byte body %q, the handler saw %d bytes %q", len(q.body), clip(q.body), len(got), clip(got))
 	}
@@ -137,16 +154,45 @@ func (w *appWorld) onWS(r *http.Request, resp *http.Response) {
 		return
 	}
 	defer c.Close()
+	var out chan [][]byte
+	if w.cfg.Async {
+		// one sender goroutine per connection: replies leave while the handler is reading again
+		out = make(chan [][]byte, 64)
+		defer close(out)
+		go func() {
+			for batch := range out {
+				for _, rep := range batch {
+					c.SendData(rep)
+					w.Probes["ws_server_sends_while_handler_reads"]++
+				}
+			}
+		}()
+	}
 	for {
 		msg, err := c.ReadData()
 		if err != nil {
 			return
 		}
 		w.wsIn = append(w.wsIn, msg)
+		if out != nil {
+			out <- w.wsReply(msg)
+			continue
+		}
 		for _, rep := range w.wsReply(msg) {
 			c.SendData(rep)
 		}
 	}
+}
+
+// appPercent sprinkles format verbs over a text: bodies are data, not format strings.
+func appPercent(r *sim.Rand, t string) string {
+	b := []byte(t)
+	for k := r.Range(1, 4); k > 0 && len(b) > 0; k-- {
+		i := r.Intn(len(b))
+		v := []string{"%", "%d", "%s", "%%", "100%", "%v%x", "%!"}[r.Intn(7)]
+		b = append(b[:i], append([]byte(v), b[i:]...)...)
+	}
+	return string(b)
 }
 
 func appText(seed uint64, id, n int) string {
@@ -198,6 +244,16 @@ func (w *appWorld) client(r *sim.Rand) {
 			}
 		}
 		q.resp = appText(w.seed, 9000+i, r.Range(1, 300))
+		if r.Chance(0.25) {
+			q.resp = appPercent(r, q.resp)
+			if q.body != "" && !strings.HasPrefix(q.body, "\n") && !strings.HasPrefix(q.body, "\r") {
+				q.body = appPercent(r, q.body)
+			}
+			w.Probes["bodies_with_percent_signs"]++
+		}
+		for k := range q.headers {
+			w.names[k] = true
+		}
 		w.cur, w.handled = q, 0
 		cli, err := http.NewClient(url + q.path)
 		if err != nil {
@@ -535,7 +591,7 @@ func (scApp) Run(t *testing.T, prop string, seed uint64, cfgRaw json.RawMessage,
 	saved := stack.Pstack
 	defer func() { stack.Pstack, appCur = saved, nil }()
 	bubble(t, func() {
-		w := &appWorld{World: NewWorld(seed), cfg: cfg, seed: seed}
+		w := &appWorld{World: NewWorld(seed), cfg: cfg, seed: seed, names: map[string]bool{}}
 		defer w.Close()
 		w.TraceOn = trace
 		rand.VerifSeed(sim.Mix(seed ^ 0x7a5d))
